@@ -8,6 +8,7 @@ import (
 	"os"
 	"path/filepath"
 	"strings"
+	"sync"
 
 	"verif/ev"
 	"verif/gen"
@@ -167,6 +168,14 @@ func c06Run(s *sut.SUT, f Flags, variant int, lines []c06Line, ch c06Chan) ([]by
 	outp := filepath.Join(dir, "out.log")
 	if ch.Out == "ofile" {
 		args = append(args, "-o", outp)
+		if variant%3 != 1 {
+			// the output path already holds an older, longer result (yesterday's log): it must be replaced, not overwritten in place
+			stale := bytes.Repeat([]byte(`{"stale":"output of an earlier run"}`+"\n"), 200+2*len(data)/37)
+			os.WriteFile(outp, stale, 0o644)
+			staleMu.Lock()
+			staleRuns++
+			staleMu.Unlock()
+		}
 	}
 	run.Args = args
 	r := s.CLI(run)
@@ -176,6 +185,11 @@ func c06Run(s *sut.SUT, f Flags, variant int, lines []c06Line, ch c06Chan) ([]by
 	}
 	return r.Stdout, r
 }
+
+var (
+	staleMu   sync.Mutex
+	staleRuns int
+)
 
 func c06Objs(lines []c06Line) []c06Line {
 	var o []c06Line
@@ -241,6 +255,10 @@ func C06() int {
 				S = append(S, pool[nonIdx[r.Intn(len(nonIdx))]])
 			} else {
 				S = append(S, pool[objIdx[r.Intn(len(objIdx))]])
+			}
+			if r.Intn(100) < 8 { // the same line again, immediately (overlapping downloads, retried operations)
+				S = append(S, S[len(S)-1])
+				i++
 			}
 		}
 		if si%6 == 2 && len(S) > 0 {
@@ -404,6 +422,7 @@ func C06() int {
 	c06Singles(s, c, singles, singleBudget, fsets)
 
 	c.Set("flag_sets", flagNames(fsets))
+	c.Set("runs_onto_an_existing_longer_output_file", staleRuns)
 	nrace := s.RaceReports()
 	c.Set("race_reports", nrace)
 	if nrace > 0 {
